@@ -200,7 +200,8 @@ Definition ab_positional (a b : str) : list (str * str) := [(s!"m", a ++ [sep0] 
 
 (* plain text: nothing the cell syntax or str.strip() reacts to *)
 Definition plain (x : str) : bool :=
-  negb (is_nil x) && forallb (fun c => negb (is_special c) && negb (is_ws c) && negb (c =? tmp_char)) x.
+  negb (is_nil x) && forallb (fun c => negb (is_special c) && negb (is_ws c)
+                                   && match cleanse_tmp with Some t => negb (c =? t) | None => true end) x.
 
 (* the unrestricted claim: a two-field record may always be packed positionally *)
 Definition positional_is_spread_full : Prop :=
@@ -282,15 +283,16 @@ Proof.
 Qed.
 
 Lemma plain_parts x : plain x = true ->
-  x <> [] /\ no_ws x = true /\ forallb (fun c => negb (is_special c)) x = true /\ mem_char tmp_char x = false.
+  x <> [] /\ no_ws x = true /\ forallb (fun c => negb (is_special c)) x = true /\ str_ok x = true.
 Proof.
-  unfold plain. intros H. apply andb_prop in H. destruct H as [Hne Hall].
+  unfold plain, str_ok. intros H. apply andb_prop in H. destruct H as [Hne Hall].
   split; [destruct x; [discriminate|discriminate]|].
-  clear Hne. induction x as [|c r IH]; [repeat split; reflexivity|].
+  clear Hne. induction x as [|c r IH]; [repeat split; destruct cleanse_tmp; reflexivity|].
   cbn [forallb] in Hall. apply andb_prop in Hall. destruct Hall as [Hc Hr].
   apply andb_prop in Hc. destruct Hc as [Hc H3]. apply andb_prop in Hc. destruct Hc as [H1 H2].
-  destruct (IH Hr) as [I1 [I2 I3]]. cbn [no_ws forallb mem_char]. unfold no_ws in I1. rewrite I1, I2, I3, H1, H2.
-  destruct (c =? tmp_char); [discriminate|]. repeat split; reflexivity.
+  destruct (IH Hr) as [I1 [I2 I3]]. cbn [no_ws forallb]. unfold no_ws in I1. rewrite I1, I2, H1, H2.
+  destruct cleanse_tmp as [t|]; [|repeat split; reflexivity].
+  cbn [mem_char]. apply negb_true_iff in H3. apply negb_true_iff in I3. rewrite H3, I3. repeat split; reflexivity.
 Qed.
 
 Lemma cell_parse_pair a b :
@@ -298,7 +300,7 @@ Lemma cell_parse_pair a b :
 Proof.
   intros Ha Hb. destruct (plain_parts a Ha) as [Ha0 [Ha1 [Ha2 Ha3]]]. destruct (plain_parts b Hb) as [Hb0 [Hb1 [Hb2 Hb3]]].
   assert (Hw : wfb (Lst [Str a; Str b]) = true).
-  { cbn [wfb is_nil negb last_ok last nonblank forallb elem_ok andb]. unfold str_ok. rewrite Ha3, Hb3.
+  { cbn [wfb is_nil negb last_ok last nonblank forallb elem_ok andb]. rewrite Ha3, Hb3.
     destruct b; [congruence|reflexivity]. }
   destruct (list_roundtrip _ Hw) as [txt [Hj Hs]].
   cbn in Hj. rewrite !escape_string_one_pass, (escape_plain a Ha2), (escape_plain b Hb2) in Hj.
